@@ -3,6 +3,7 @@ package cachekv
 import (
 	"bytes"
 
+	"github.com/pokt-network/posmint/store/tracekv"
 	"github.com/pokt-network/posmint/store/types"
 	zz "github.com/pokt-network/posmint/zzverif"
 	"github.com/pokt-network/posmint/zzverif/vstore"
@@ -184,4 +185,80 @@ func VerifC15_OpenIterator() {
 	zz.Assert("C15.open-iterator.keeps-its-view", snapshot.IterationOfS(got1, s, e, asc))
 	zz.Assert("C15.open-iterator.new-iterator-sees-new-overlay", model.IterationOfS(got2, nil, nil, true))
 	zz.Reach("C15.open-iterator")
+}
+
+// VerifC15_EmptyValue: an empty (non-nil) value is a value: set through the wrapper - also for a key the wrapper has
+// already read as absent, or that holds another value - it is visible to Get/Has/iteration at once and reaches the
+// parent at Write, at nesting depth 1 and 2.
+func VerifC15_EmptyValue() {
+	parent := vParent()
+	model := parent.Clone()
+	var w types.CacheKVStore = NewStore(parent)
+	if zz.Choice("depth", 2) == 1 {
+		w = NewStore(w)
+	}
+	k := vKey("k")
+	switch zz.Choice("before", 3) {
+	case 1: // the wrapper has looked the key up before (cached "absent" or the parent's value)
+		got := w.Get(k)
+		zz.Assert("C15.empty.read-before", model.GetS(k, got))
+	case 2:
+		w.Set(k, []byte{7})
+		model.Set(k, []byte{7})
+	}
+	w.Set(k, []byte{})
+	model.Set(k, []byte{})
+	got := w.Get(k)
+	zz.Assert("C15.empty.get-sees-empty-value", got != nil && len(got) == 0 && w.Has(k))
+	zz.Assert("C15.empty.iteration-sees-it", model.IterationOfS(vstore.Drain(w.Iterator(nil, nil)), nil, nil, true) && model.IterationOfS(vstore.Drain(w.ReverseIterator(nil, nil)), nil, nil, false))
+	w.Write()
+	if inner, ok := w.(*Store); ok {
+		if outer, ok := inner.parent.(*Store); ok {
+			outer.Write()
+		}
+	}
+	zz.Assert("C15.empty.reaches-parent", vstore.SameContentS(parent, model) && parent.Has(k))
+	zz.Reach("C15.empty.end")
+}
+
+type vTraceRec struct{ chunks [][]byte }
+
+func (r *vTraceRec) Write(p []byte) (int, error) {
+	r.chunks = append(r.chunks, append([]byte{}, p...))
+	return len(p), nil
+}
+
+// lines: tracekv writes one JSON chunk and one newline chunk per traced operation
+func (r *vTraceRec) lines() int { return len(r.chunks) / 2 }
+
+// VerifC16_NestedTrace: tracing requested at every cache level (as cachemulti does for the block cache and, nested in
+// it, the per-transaction cache): what the nested level sends to its parent - read-throughs and the writes/deletes it
+// flushes - appears in the trace, one line per operation.
+func VerifC16_NestedTrace() {
+	base := vstore.New()
+	base.Set([]byte("ka"), []byte("va"))
+	rec := &vTraceRec{}
+	tc := types.TraceContext{"blockHeight": 64}
+	l1 := NewStore(tracekv.NewStore(base, rec, tc))
+	l2 := l1.CacheWrapWithTrace(rec, tc).(types.CacheKVStore)
+	k := [][]byte{[]byte("ka"), []byte("kb")}[zz.Choice("key", 2)]
+	op := zz.Choice("op", 3)
+	switch op {
+	case 0:
+		l2.Set(k, []byte("new"))
+	case 1:
+		l2.Delete(k)
+	case 2:
+		_ = l2.Get(k)
+	}
+	l2.Write()
+	switch op {
+	case 0, 1:
+		// the flush of the nested level is one traced operation on the first level (which has not flushed to the base)
+		zz.Assert("C16.nestedtrace.flushed-operation-is-traced", rec.lines() == 1 && len(rec.chunks) == 2)
+	case 2:
+		// the read-through of the nested level is traced, and so is the first level's own read-through below it
+		zz.Assert("C16.nestedtrace.read-through-is-traced", rec.lines() == 2)
+	}
+	zz.Reach("C16.nestedtrace.end")
 }
